@@ -60,6 +60,7 @@ def run(ctx):
     tier = ctx.tier
     dump = os.path.join(ctx.workdir, "e1", "states")
     ctx.run_tlc("e1", "SimplifyMC", "Simplify_%s.cfg" % tier, dump=dump, coverage=True)
+    ctx.run_tlc("e1.liveness", "SimplifyMC", "Simplify_live.cfg")          # the index walk terminates
     n = 0
     tojudge = []
     pit_evs = []
